@@ -4,7 +4,7 @@
      C01_fragment_preservation -- semantic preservation of the backend model (Back/IR.v `lower` + the AST
      twin Pres/EmitAst.v of the text emitter Back/Emit.v) with respect to the reference interpreter
      Sem/SyltSem.v (source side) and the Lua 5.3 interpreter model Lua/LuaCore.v (target side), for the
-     computable fragment Pres/Frag.v `frag` (STAGE 4e: int/bool/string expressions, print, definitions, assignments
+     computable fragment Pres/Frag.v `frag` (STAGE 4f: int/bool/string expressions, print, definitions, assignments
      = += -= *=, if/elif/else expressions and statements, loops with break and continue, blocks, inside
      top-level functions; the outer definitions (global values and FUNCTIONS with parameters, `start` among them, in any
      order the resolver gives them),
@@ -13,7 +13,7 @@
      blocks, loop bodies -- every pass its own closure over its own locals --, if-branches), nested to any depth, that capture the variables of the enclosing functions, MUTABLE locals included -- the
      closure and its definer share the variable and see each other's later assignments, every activation has its
      own locals -- called by name, and passed BY NAME to parameters of function type, where they are called or
-     passed on: FUNCTIONS AS ARGUMENTS).  The Lua side runs the statements of the
+     passed on, and LAMBDA expressions in argument position: FUNCTIONS AS ARGUMENTS).  The Lua side runs the statements of the
      REAL preamble.lua (Gen/GenPreamble.v, regenerated on every run) followed by the program's statements.
    WHAT IS CHECKED AT RUN TIME, per program of the tie (tools/props/c01.py):
      * component "emit_ast": LuaParse.parse_lua Lua53 (real compiler output) = ParseOk (chunk_ast code), i.e. the
@@ -689,12 +689,79 @@ Proof.
   cbn [r_final] in Hfin. destruct (o_final _); try contradiction. reflexivity.
 Qed.
 
+(* ---- a twelfth program (stage 4f): lambda expressions as arguments; they read and change a mutable local of the
+   function that creates them ----
+     (apply, twice, inc as in the eleventh program)
+     start :: fn do
+       n := 10
+       add :: fn b: int -> int do n += b  n end
+       print(apply(add, 1))  print(twice(add, 2))  print(n)  print(apply(inc, 5))     -- 12 26 26 7
+       print(apply(fn z: int -> int do z * n end, 3))                               -- 3 * 26 + 1
+       print(twice(fn w: int -> int do n -= 1  w + n end, 0))                       -- 25, then 25 + 24
+       print(n)                                                                      -- 24
+     end                                                                                          *)
+Definition ex_prog12 : resolved :=
+  mkResolved
+    [mkVar 0 "print" sp0 true Const; mkVar 1 "apply" sp0 true Const; mkVar 2 "twice" sp0 true Const; mkVar 3 "inc" sp0 true Const;
+     mkVar 4 "start" sp0 true Const; mkVar 5 "== STACK ==" sp0 false Const;
+     mkVar 6 "f" sp0 false Const; mkVar 7 "x" sp0 false Const; mkVar 8 "g" sp0 false Const; mkVar 9 "y" sp0 false Const;
+     mkVar 10 "a" sp0 false Const; mkVar 11 "n" sp0 false Mutable; mkVar 12 "add" sp0 false Const; mkVar 13 "b" sp0 false Const; mkVar 14 "z" sp0 false Const; mkVar 15 "w" sp0 false Const]
+    [SExternalDefinition "print" 0 Const (TImplied sp0) sp0;
+     SDefinition "apply" 1 Const (TImplied sp0)
+       (EFunction "lambda" [("f"%string, 6%N, sp0, tfn1); ("x"%string, 7%N, sp0, tint)] tint
+          [SStatementExpression (EBinOp Add (call 6 [ERead 7 sp0]) (EInt 1 sp0) sp0) sp0] false sp0) sp0;
+     SDefinition "twice" 2 Const (TImplied sp0)
+       (EFunction "lambda" [("g"%string, 8%N, sp0, tfn1); ("y"%string, 9%N, sp0, tint)] tint
+          [SStatementExpression (call 8 [call 8 [ERead 9 sp0]]) sp0] false sp0) sp0;
+     SDefinition "inc" 3 Const (TImplied sp0)
+       (EFunction "lambda" [("a"%string, 10%N, sp0, tint)] tint
+          [SStatementExpression (EBinOp Add (ERead 10 sp0) (EInt 1 sp0) sp0) sp0] false sp0) sp0;
+     SDefinition "start" 4 Const (TImplied sp0)
+       (EFunction "lambda" [] (TImplied sp0)
+          [SDefinition "n" 11 Mutable (TImplied sp0) (EInt 10 sp0) sp0;
+           SDefinition "add" 12 Const (TImplied sp0)
+             (EFunction "lambda" [("b"%string, 13%N, sp0, tint)] tint
+                [SAssignment Add (ERead 11 sp0) (ERead 13 sp0) sp0;
+                 SStatementExpression (ERead 11 sp0) sp0] false sp0) sp0;
+           SStatementExpression (call 0 [call 1 [ERead 12 sp0; EInt 1 sp0]]) sp0;
+           SStatementExpression (call 0 [call 2 [ERead 12 sp0; EInt 2 sp0]]) sp0;
+           SStatementExpression (call 0 [ERead 11 sp0]) sp0;
+           SStatementExpression (call 0 [call 1 [ERead 3 sp0; EInt 5 sp0]]) sp0;
+           SStatementExpression (call 0 [call 1 [EFunction "lambda" [("z"%string, 14%N, sp0, tint)] tint
+                                                   [SStatementExpression (EBinOp Mul (ERead 14 sp0) (ERead 11 sp0) sp0) sp0] false sp0; EInt 3 sp0]]) sp0;
+           SStatementExpression (call 0 [call 2 [EFunction "lambda" [("w"%string, 15%N, sp0, tint)] tint
+                                                   [SAssignment Sub (ERead 11 sp0) (EInt 1 sp0) sp0;
+                                                    SStatementExpression (EBinOp Add (ERead 15 sp0) (ERead 11 sp0) sp0) sp0] false sp0; EInt 0 sp0]]) sp0;
+           SStatementExpression (call 0 [ERead 11 sp0]) sp0]
+          false sp0) sp0].
+
+Example C01_example12_hypotheses :
+  frag 30 ex_prog12 = true /\
+  (exists code, lower 30 ex_prog12 = Ok code) /\
+  SyltSem.run 60 ex_prog12 = mkRun ["12"; "26"; "26"; "7"; "79"; "49"; "24"]%string ODone.
+Proof. split; [vm_compute; reflexivity | split; [eexists; vm_compute; reflexivity | vm_compute; reflexivity]]. Qed.
+
+Theorem C01_lambdas_by_theorem code :
+  lower 30 ex_prog12 = Ok code ->
+  exists m, forall m', (m <= m')%nat ->
+    let out := LuaCore.run_block Lua53 m' (chunk_ast code) in
+    o_trace out = ["12"; "26"; "26"; "7"; "79"; "49"; "24"]%string /\ o_final out = FDone.
+Proof.
+  intros Hl.
+  assert (Hf : frag 30 ex_prog12 = true) by (vm_compute; reflexivity).
+  assert (Hr : SyltSem.run 60 ex_prog12 = mkRun ["12"; "26"; "26"; "7"; "79"; "49"; "24"]%string ODone) by (vm_compute; reflexivity).
+  destruct (C01_fragment_preservation 30 ex_prog12 code 60 _ Hf Hl Hr I) as (m & Hm).
+  exists m. intros m' Hle. specialize (Hm m' Hle). cbv zeta in *. destruct Hm as [Ht Hfin]. split; [exact Ht|].
+  cbn [r_final] in Hfin. destruct (o_final _); try contradiction. reflexivity.
+Qed.
+
 Print Assumptions C01_fragment_preservation.
 Print Assumptions C01_fragment_preservation_text.
 Print Assumptions C01_activations_own_locals_by_theorem.
 Print Assumptions C01_loop_iteration_closures_by_theorem.
 Print Assumptions C01_strings_by_theorem.
 Print Assumptions C01_functions_as_arguments_by_theorem.
+Print Assumptions C01_lambdas_by_theorem.
 
 (* ---- source tie: the hand-written model behind these theorems mirrors the files below; the digests of their
    functions regenerated from /repo on this run equal the reviewed ones (coq/Doc/DocSrcDigest.v).  Any edit of
